@@ -186,6 +186,9 @@ def c05_stream(seed, n):
     ops = g.mixed(n, multi=True)
     out = []
     for l in ops:
+        # only some of the callbacks registered: a call through a pointer that was never set is C05's business
+        if l.startswith("r ") and l.endswith(" 1") and r.random() < 0.35:
+            continue
         out.append(l)
         if not l.startswith("p "):
             continue
@@ -202,7 +205,12 @@ def streams(pid, tier, seed):
     """list of (name, cfg, ops) for the correspondence + monitor runs of a property"""
     q = tier == "quick"
     S = []
+    VARIED = ("mixed", "text", "textN", "rt", "rtfew", "textfew", "ext", "prog", "progmix", "wild", "wildN", "multi", "redeliver")
     def add(name, ops, cfg="u"):
+        # the random streams end in a stretch of "unusual calling patterns" (gen.vary: both entry points, callbacks removed and put
+        # back, user data changed); the sweeps are left as they are
+        if name in VARIED or name.startswith("mixed_"):
+            ops = gen.vary(ops, seed + len(S))
         S.append((name, cfg, ops))
     stride = lambda quick, thorough: quick if q else thorough
     if pid == "C01":
@@ -235,6 +243,7 @@ def streams(pid, tier, seed):
         add("wild", c05_stream(seed, 20000 if q else 300000))
         add("wildN", c05_stream(seed + 1, 8000 if q else 100000), "nh")
         add("hexm", gen.hex_malformed())
+        add("partialreg", gen.sweep_partial_registration())
         add("sweepEcc", gen.sweep_ecc(stride(8, 1), seed))
     elif pid == "C06":
         for t in range(3):
@@ -283,7 +292,7 @@ def streams(pid, tier, seed):
         add("overrange", gen.sweep_overrange())
         add("mixed", mixed_stream(seed, 15000 if q else 300000)[0])
     elif pid == "C18":
-        pass
+        add("countrycb", gen.sweep_country_callbacks())
     elif pid == "C19":
         add("multi", mixed_stream(seed, 25000 if q else 400000, multi=True)[0])
     elif pid == "C20":
@@ -304,12 +313,17 @@ def twin_specs(pid, tier, seed):
     elif pid == "C13":
         for i in range(reps * 4): T.append(("c13_%d" % i, twins.twin_c13(seed * 1000 + i, 300 + 200 * (i % 5), 1500 if q else 6000), "u", "u"))
         for k in range(64): T.append(("c13edge_%d" % k, twins.twin_c13_edge(k), "u", "u"))
+        for k in range(8): T.append(("c13other_%d" % k, twins.twin_c13_other(k), "u", "u"))
         for j in range(12):
             for ext in (0, 1): T.append(("c13re_%d_%d" % (j, ext), twins.twin_reentrant_clear(j, ext, seed * 100 + j), "u", "u"))
     elif pid == "C14":
         for i in range(reps): T.append(("c14_%d" % i, twins.twin_c14(seed * 1000 + i, 5000 if q else 40000), "u", "u"))
     elif pid == "C15":
         for i in range(reps): T.append(("c15_%d" % i, twins.twin_c15(seed * 1000 + i, 6000 if q else 40000), "u", "u"))
+    elif pid == "C12":
+        # "exactly one report per valid 4A group" also when the CT callback is registered late, removed and put back, or
+        # registered by another callback during the call (the CT part of C15's twins)
+        T.append(("c12cb", twins.twin_c15(seed * 1000 + 77, 200, only_k=11), "u", "u"))
     elif pid == "C09":
         for i in range(reps): T.append(("c09_%d" % i, twins.twin_c09(seed * 1000 + i, 5000 if q else 40000), "u", "u"))
         # "since the last reset" also when the reset is made from inside a callback (extended check on)
@@ -389,7 +403,7 @@ def evaluate_stream(ctx, res):
         ctx.cov["samples"].append({"stream": name, "ops": res.ops[:3] + body[:3]})
     # 1. sanitizer abort / timeout / harness-detected problems: C05's business (and C19 for X lines on handles)
     if aborted or rep["x"]:
-        if pid == "C05" or (pid in ("C15", "C19") and rep["x"]):
+        if pid == "C05" or (pid in ("C15", "C19", "C18") and rep["x"]):
             k = nops
             ops = runner.slice_for_instance(res.ops, k + 1)
             what = ("harness exit %d: %s" % (res.harness_rc, res.harness_err.strip()[-1500:])) if aborted else rep["x"][0]
@@ -678,6 +692,19 @@ def run_property(pid, tier, seed):
                 # one build configuration no longer compiles: the look-ups of the default build can still be run over their
                 # whole domains for a concrete input before the broken tie is reported
                 c18_segment_check(ctx)
+                try:
+                    infra.build_binary("u", "harness")
+                    for name, cfg, ops in streams(pid, tier, seed):
+                        res = runner.run_stream(ctx.workdir, name, "u", ops)
+                        k = -1
+                        for line in open(res.trace_path):
+                            if line.startswith("O "): k = int(line.split()[1])
+                            elif line.startswith("X "):
+                                p2 = runner.write_replay(pid, "%s-s%d" % (name, seed), ["property=C18 stream=%s cfg=u kind=runtime: %s" % (name, line.strip())], runner.slice_for_instance(ops, k))
+                                ctx.add_violation(p2, line.strip()[:300])
+                                break
+                except (infra.BuildError, subprocess.TimeoutExpired, OSError):
+                    pass
                 if ctx.violations:
                     return finish(ctx)
             path = runner.write_replay(pid, "build", ["kind=build/extraction step failed; the tie between model and source cannot be established", msg[:3000].replace("\n", " | ")], [])
